@@ -146,29 +146,31 @@ def property_on_impl(ant, src_seed, rng, n=None, radials=None):
     i = rng.randrange(len(ms))
     if ms[0].nradials and len(ms) >= 2:
         i = rng.randrange(1, len(ms))           # a ground screen: split one of the media beyond it
+    us = []
     if not (i == 0 and ms[0].nradials) and len(ms) < 4:
-        sp = clone_media(ms)
         inner_lo = ms[i - 1].coord if i > 0 else 0.0
         outer = ms[i].coord
-        u = inner_lo + (min(outer, inner_lo + 40) - inner_lo) * rng.uniform(0.2, 0.8)
+        us = [inner_lo + (min(outer, inner_lo + 40) - inner_lo) * rng.uniform(0.2, 0.8)]
+        if i == 0 and (len(ms) == 1 or ms[0].boundary == 'linear'):
+            us += [0.0, -rng.uniform(0.5, 5.0)]       # a linear boundary may lie at x = 0 exactly or at negative x
+    for u in us:
+        sp = clone_media(ms)
         first = Medium(ms[i].permittivity, ms[i].conductivity, height=ms[i].height, boundary=ms[i].boundary, coord=u,
                        **(dict(nradials=ms[i].nradials, radius=ms[i].radius) if ms[i].nradials else {}))
         second = Medium(ms[i].permittivity, ms[i].conductivity, height=ms[i].height, boundary=ms[i].boundary, coord=outer)
-        if len(ms) > 1 or True:
-            for x in (first, second):
-                x.boundary = ms[0].boundary if len(ms) > 1 else 'linear'
+        for x in (first, second):
+            x.boundary = ms[0].boundary if len(ms) > 1 else 'linear'
         sp = sp[:i] + [first, second] + sp[i + 1:]
         if i == 0 and sp[0].height != 0:
-            pass
-        else:
-            try:
-                msp, _ = solve(ant, sp, src_seed)
-                ps = pattern(msp)
-                for k in pr:
-                    if max(abs(a - b) for a, b in zip(pr[k], ps[k])) > 1e-9 * mx:
-                        return 'pattern changes when medium %d is split at %g: theta=%g phi=%g' % (i + 1, u, k[0], k[1])
-            except ValueError:
-                pass
+            continue
+        try:
+            msp, _ = solve(ant, sp, src_seed)
+        except ValueError:
+            continue
+        ps = pattern(msp)
+        for k in pr:
+            if max(abs(a - b) for a, b in zip(pr[k], ps[k])) > 1e-9 * mx:
+                return 'pattern changes when medium %d is split at %g: theta=%g phi=%g' % (i + 1, u, k[0], k[1])
     # a further medium far beyond every reflection point
     if len(ms) < 4:
         ap = clone_media(ms)
@@ -217,6 +219,7 @@ def replay(rp):
 def run(ck):
     from mininec.mininec import Medium
     ck.proof_side()
+    ck.cov['further_clauses'] = 'a first medium with a linear boundary is also split at x = 0 exactly and at a negative x'
     d = ck.get_driver()
     rng = ck.rng
     dis, viol = [], []
